@@ -131,7 +131,17 @@ def run(ctx):
                     if lo == 0 and e.b[1].mentions_call(r'Vec::<.*>::len$') is not None and 'buckets' in e.b[1].show():
                         covers = True
         ctx.ob('TOTAL-SCAN', 'scan:covers-all-buckets', covers, fc.where(), 'the walk ranges over all %s buckets: %s' % (nb, covers))
-    ctx.floor('TOTAL-SCAN', 3)
+        # every entry of every visited bucket becomes a candidate: no element of the walk is skipped
+        okall = True
+        why = ''
+        wl = None
+        for pcall in pushes:
+            okp, wl, why = L.every_iteration_passes(fc, pcall.bb)
+            okall = okall and okp
+        ctx.ob('TOTAL-SCAN', 'scan:every-entry-collected', okall, fc.where(wl),
+               ('every routing-table entry visited by the walk is pushed into the candidate vector' if okall else
+                'the walk skips entries before they become candidates (%s): the answer is not the exact closest set' % why))
+    ctx.floor('TOTAL-SCAN', 4)
 
     # ---- 3. unique entries
     ka = prog.body(KB + '::add_node')
